@@ -1,4 +1,11 @@
 import Driver.Loop
 import Driver.C18
+import Driver.C18Roots
 
-def main : IO Unit := Numqi.Driver.run Numqi.Driver.C18.handle
+/-- `rootsupb …` ops (roots-of-unity UPB families, model `NumqiModel/CatalogueRoots.lean`) go to their own handler -/
+def handleC18 (args : List String) : String :=
+  match args with
+  | "rootsupb" :: _ => Numqi.Driver.C18Roots.handle args
+  | _ => Numqi.Driver.C18.handle args
+
+def main : IO Unit := Numqi.Driver.run handleC18
